@@ -23,6 +23,30 @@ theorem parseStep_plain (g : Grammar) (s : List Char) (p : P) (id : Nat)
     by_cases hc : (nd.mayIdx || decide (pre ≥ s.length)) = true <;> simp [hc]
   | hang => simp [idxConv]
 
+theorem idxConv_of_ne' (nd : Node) (slen pre : Nat) (o : Out) (h : o ≠ .idx) : idxConv nd slen pre o = o := by
+  cases o with
+  | idx => exact absurd rfl h
+  | ok e ts => rfl
+  | fail c l => rfl
+  | hang => rfl
+
+theorem iterLoop_ne_parse (tail : Bool → Nat → Out) (a : Bool) : ∀ k e acc l, iterLoop tail a k e acc ≠ .fail .parse l := by
+  intro k
+  induction k with
+  | zero => intro e acc l h; cases h
+  | succ k ih =>
+    intro e acc l
+    unfold iterLoop
+    cases tail a e with
+    | ok e' ts' =>
+      simp only
+      by_cases hle : e' ≤ e
+      · simp [hle]
+      · simp only [hle, if_false]; exact ih _ _ _
+    | fail c l => cases c <;> simp
+    | idx => simp
+    | hang => simp
+
 theorem iterLoop_acc (tail : Bool → Nat → Out) (a : Bool) : ∀ k e acc,
     iterLoop tail a k e acc = (match iterLoop tail a k e [] with
       | .ok l ts => .ok l (acc ++ ts)
@@ -114,6 +138,71 @@ theorem manyLoop_eq_iterLoop (h : IterG g I Z R b t0 rest nI nZ nR) (s : List Ch
       simp only [idxConv]
       by_cases hc : (nR.mayIdx || decide (l ≥ s.length)) = true <;> simp [hc]
     | hang => rfl
+
+/-- `Z = ZeroOrMore R` started at `e0` (no tokens yet) -/
+theorem parse_Z_step (h : IterG g I Z R b t0 rest nI nZ nR) (s : List Char) (n : Nat)
+    (hpZ : ∀ p e, (if nZ.callPre then preParse p nZ s e else PreR.at e) = .at e)
+    (hpR : ∀ p e, (if nR.callPre then preParse p nR s e else PreR.at e) = .at e)
+    (ht0 : ∀ e a, parse g s n t0 e a false = parse g s n t0 e a true) (e0 : Nat) (a : Bool)
+    (hadv : ∀ l ts, tailOf g s n (t0 :: rest) a e0 = .ok l ts → e0 < l) :
+    parse g s (n + 2) Z e0 a true = iterLoop (tailOf g s n (t0 :: rest)) a (s.length + 3) e0 [] := by
+  rw [parse]
+  rw [parseStep_plain g s _ Z nZ e0 e0 a true h.hZ h.aZ (by intro ts; simp [postParse, h.kZ]) (by simpa using hpZ _ e0)]
+  simp only [parseImpl, h.kZ, manyImpl, Bool.false_eq_true, if_false]
+  rw [parse_R_step h s n hpR ht0 e0 a]
+  simp only [manyLoop_eq_iterLoop h s n hpR ht0 a]
+  rw [iterLoop]
+  cases ht : tailOf g s n (t0 :: rest) a e0 with
+  | ok l ts =>
+    have hlt := hadv l ts ht
+    have hle : ¬ l ≤ e0 := by omega
+    simp only [idxConv, hle, if_false, List.nil_append]
+    cases hi : iterLoop (tailOf g s n (t0 :: rest)) a (s.length + 2) l ts with
+    | ok l2 t2 => rfl
+    | fail c l2 =>
+      cases c with
+      | parse => exact absurd hi (iterLoop_ne_parse _ _ _ _ _ _)
+      | fatal => rfl
+      | «syntax» => rfl
+    | idx => exact absurd hi (iterLoop_ne_idx _ _ _ _ _)
+    | hang => rfl
+  | fail c l => cases c <;> rfl
+  | idx =>
+    simp only [idxConv]
+    by_cases hc : (nR.mayIdx || decide (e0 ≥ s.length)) = true <;> simp [hc]
+  | hang => rfl
+
+/-- **the model's parse of the iterative grammar `And [b, ZeroOrMore (And (t0 :: rest))]`** -/
+theorem parse_I_step (h : IterG g I Z R b t0 rest nI nZ nR) (s : List Char) (n : Nat)
+    (hpZ : ∀ p e, (if nZ.callPre then preParse p nZ s e else PreR.at e) = .at e)
+    (hpR : ∀ p e, (if nR.callPre then preParse p nR s e else PreR.at e) = .at e)
+    (ht0 : ∀ e a, parse g s n t0 e a false = parse g s n t0 e a true) (pre : Nat) (a : Bool)
+    (hb0 : parse g s (n + 2) b pre a false = parse g s (n + 2) b pre a true)
+    (hadv : ∀ e l ts, tailOf g s n (t0 :: rest) a e = .ok l ts → e < l) :
+    parse g s (n + 3) I pre a false =
+      (match baseOf g s (n + 2) b pre a with
+        | .ok e0 ts0 => iterLoop (tailOf g s n (t0 :: rest)) a (s.length + 3) e0 ts0
+        | o => idxConv nI s.length pre o) := by
+  have hsZ : isStopOf g Z = false := by simp [isStopOf, h.hZ, h.kZ]
+  rw [parse]
+  rw [parseStep_plain g s _ I nI pre pre a false h.hI h.aI (by intro ts; simp [postParse, h.kI]) (by simp)]
+  simp only [parseImpl, h.kI, andImpl, hb0]
+  unfold baseOf
+  cases hb : parse g s (n + 2) b pre a true with
+  | ok e0 ts0 =>
+    simp only
+    change idxConv nI s.length pre (andRest (parse g s (n + 2)) (isStopOf g) a s.length [Z] false e0 ts0) = _
+    rw [andRest]
+    simp only [hsZ, Bool.false_eq_true, if_false]
+    rw [parse_Z_step h s n hpZ hpR ht0 e0 a (hadv e0), iterLoop_acc _ _ _ e0 ts0]
+    cases hi : iterLoop (tailOf g s n (t0 :: rest)) a (s.length + 3) e0 [] with
+    | ok l ts => simp [andRest, idxConv]
+    | fail c l => simp [idxConv]
+    | idx => exact absurd hi (iterLoop_ne_idx _ _ _ _ _)
+    | hang => simp [idxConv]
+  | fail c l => rfl
+  | idx => rfl
+  | hang => rfl
 
 end
 
